@@ -16,11 +16,12 @@ SPEC = dict(
     rule=("base projects (1..5 files x 1..3 patterns, v2 and legacy, config entry explicit or implicit, commit off or "
           "on with a fake git) x file-entry orders (all permutations up to 4 entries in thorough, 2 sampled in quick; "
           "sampled for 5) x EVERY single fault: each non-config (file, pattern) occurrence destroyed, each file "
-          "removed, --set-version lower / malformed; each fault = one `--dry` run + one real run; non-trivial+distinct "
+          "removed, --set-version lower / malformed, an automatic increment that the version gate rejects (tag downgrade); each fault = one `--dry` run + one real run; non-trivial+distinct "
           "= distinct (n files, fault kind, position of the faulty file in the write order, engine, commit) tuples"),
     assumptions=["destroying an occurrence = overwriting it with '~' characters (cannot match any pattern)",
                  "a traceback exit counts as 'exits non-zero'; what is asserted is that nothing changed"],
     required=["fault_runs", "faults_at_later_write_position", "fault:pattern", "fault:file-removed", "fault:version",
+              "fault:version:auto-increment-rejected",
               "engine:v2", "engine:v1", "commit_on_runs", "dry_reported_error"],
     anchors=[("v2rewrite", "rewrite_files"), ("v1rewrite", "rewrite_files"), ("rewrite", "iter_path_patterns_items"),
              ("cli", "_update"), ("cli", "_try_update")],
@@ -86,8 +87,29 @@ def run_case(ctx, case):
                 faults.append(("file-removed", fn))
         faults.append(("version", "lower"))
         faults.append(("version", "malformed"))
+        auto = auto_rejected_args(R, q, tdy) if not q.legacy else None
+        if auto:
+            faults.append(("version", ("auto", auto)))
         for fault in faults:
             run_one(ctx, case, q, good_args, fault, expect_fail=True)
+
+
+def auto_rejected_args(R, q, tdy):
+    """flags for which the model says: a new version is computed, but it is NOT greater (tag downgrade without
+    any numeric change) - the update must be refused like a bad --set-version"""
+    from bvmon import gen, ref
+    ast = ref.parse_pattern(q.vp)
+    names = list(ref.parts_in(ast))
+    if not any(n in names for n in ("TAG", "PYTAG")):
+        return None
+    i = ref.TAG_ORDER.index(q.cur_state["tag"])
+    for lower in ref.TAG_ORDER[:i]:
+        fl = dict(major=False, minor=False, patch=False, tag=lower, tag_num=False, pin_increments=True, pin_date=True)
+        exp, why = updates.model_bump(q.vp, q.cur_text, fl, tdy, tdy)
+        if exp is None and why == "gate-refuse":
+            ctx_args = ["update", "--no-fetch"] + gen.flags_to_args(fl, None)
+            return ctx_args
+    return None
 
 
 def run_one(ctx, case, q, good_args, fault, expect_fail):
@@ -110,6 +132,8 @@ def run_one(ctx, case, q, good_args, fault, expect_fail):
         elif kind == "file-removed":
             del files[what]
             pos = q.write_order.index(what)
+        elif kind == "version" and isinstance(what, tuple):
+            args = what[1]   # an AUTOMATIC increment whose result the version gate rejects
         elif kind == "version":
             args = ["update", "--no-fetch", "--set-version",
                     (q.cur_text if what == "lower" else q.cur_text + "~junk")]
@@ -136,6 +160,8 @@ def run_one(ctx, case, q, good_args, fault, expect_fail):
         kind = fault[0]
         ctx.count("fault_runs")
         ctx.count("fault:" + kind)
+        if kind == "version" and isinstance(fault[1], tuple):
+            ctx.count("fault:version:auto-increment-rejected")
         ctx.count("engine:" + ("v1" if q.legacy else "v2"))
         if case["commit"]:
             ctx.count("commit_on_runs")
